@@ -202,6 +202,8 @@ def isDuePoll (cfg : Cfg) (T : Nat) : Op → Bool
 /-- (`omega` does not like truncated subtraction of a large literal: the literal is abstracted) -/
 theorem sub_lt_sub_aux (d T t c : Nat) (hc : c ≤ d) (h : T + d - c < t) : d - c < t - T := by omega
 
+theorem lt_of_due_aux (d T t c : Nat) (hc : c ≤ d) (h : T + d - c < t) : T < t := by omega
+
 theorem needRepublish_due (s : State) (T t : Nat) (hq : s.queue = []) (hT : s.lastPublish = some T)
     (hd : s.cfg.durationUs > 30000000) (ht : T + s.cfg.durationUs - 5000000 < t) : needRepublish s t = true := by
   unfold needRepublish
@@ -209,8 +211,10 @@ theorem needRepublish_due (s : State) (T t : Nat) (hq : s.queue = []) (hT : s.la
   cases hc : s.current with
   | none => rfl
   | some c =>
-    simp only [hd, if_true, decide_eq_true_eq]
-    exact sub_lt_sub_aux _ _ _ _ (Nat.le_of_lt (Nat.lt_trans (by decide) hd)) ht
+    have hle : 5000000 ≤ s.cfg.durationUs := Nat.le_of_lt (Nat.lt_trans (by decide) hd)
+    have hne : ¬ T = t := Nat.ne_of_lt (lt_of_due_aux _ _ _ _ hle ht)
+    simp only [hne, if_false, hd, if_true, decide_eq_true_eq]
+    exact sub_lt_sub_aux _ _ _ _ hle ht
 
 theorem popQueue_length (s : State) : (popQueue s).queue.length = s.queue.length - 1 := by
   unfold popQueue; split <;> simp_all
@@ -674,31 +678,33 @@ theorem effectiveOti_spec (d : Oti) (a : ObjAttrs) (o : Oti) (h : effectiveOti d
     · cases h
     · split at h
       · cases h
-      · cases h
       · split at h
-        · rename_i h61
-          split at h
-          · cases h
-          · split at h
+        · cases h
+        · cases h
+        · split at h
+          · rename_i h61
+            split at h
             · cases h
             · split at h
               · cases h
               · split at h
                 · cases h
-                · rename_i q _ _ _ hnb
-                  simp only [Except.ok.injEq, Option.some.injEq] at h
-                  right
-                  refine ⟨h61, max q.2.2.2 1, h.symm, ?_, ?_⟩
-                  · intro h6
-                    have := Nat.le_of_not_gt (fun hgt => hnb (.inl ⟨h6, hgt⟩))
-                    omega
-                  · intro h1
-                    have := Nat.le_of_not_gt (fun hgt => hnb (.inr ⟨h1, hgt⟩))
-                    omega
-        · rename_i h61
-          simp only [Except.ok.injEq, Option.some.injEq] at h
-          left
-          exact ⟨fun h6 => h61 (.inl h6), fun h1 => h61 (.inr h1), h.symm⟩
+                · split at h
+                  · cases h
+                  · rename_i q _ _ _ hnb
+                    simp only [Except.ok.injEq, Option.some.injEq] at h
+                    right
+                    refine ⟨h61, max q.2.2.2 1, h.symm, ?_, ?_⟩
+                    · intro h6
+                      have := Nat.le_of_not_gt (fun hgt => hnb (.inl ⟨h6, hgt⟩))
+                      omega
+                    · intro h1
+                      have := Nat.le_of_not_gt (fun hgt => hnb (.inr ⟨h1, hgt⟩))
+                      omega
+          · rename_i h61
+            simp only [Except.ok.injEq, Option.some.injEq] at h
+            left
+            exact ⟨fun h6 => h61 (.inl h6), fun h1 => h61 (.inr h1), h.symm⟩
 
 theorem setZ_fields (o : Oti) (nb : Nat) :
     (setZ o nb).enc = o.enc ∧ (setZ o nb).inst = o.inst ∧ (setZ o nb).maxSbl = o.maxSbl ∧
